@@ -21,6 +21,8 @@ type Universe struct {
 	Amounts    []uint64
 	// BadReceiverPct: percentage of cross-chain transfers with an invalid receiver (-> error ack)
 	BadReceiverPct int
+	// UnknownDestPct: percentage of transfers addressed to a chain no client exists for (via a relay chain)
+	UnknownDestPct int
 	// NoNewMTIDs disables operations that make irismod's MT module generate a new
 	// denom / MT id from its internal counters (used after a genesis re-import:
 	// whether irismod restores those counters is outside TIBC)
@@ -115,6 +117,11 @@ func (e *Engine) pickRoute(n *world.Node, u Universe) (dest, relay string) {
 	}
 	d := others[ch.Int(len(others))]
 	dest = d.Name
+	if u.UnknownDestPct > 0 && ch.Int(100) < u.UnknownDestPct {
+		// a destination nobody has a client of, reachable only through a relay chain
+		e.W.Stats.Inc("unknown-destination-send")
+		return "chain-zzz9", d.Name
+	}
 	if len(others) >= 2 && ch.Int(100) < u.RelayPct {
 		var rs []*world.Node
 		for _, o := range others {
